@@ -305,7 +305,7 @@ impl Voronoi {
                 );
                 VoronoiCell::from_convex_cell(&convex_cell, faces, mask)
             } else {
-                VoronoiCell::default()
+                VoronoiCell::unconstructed(idx)
             }
         };
 
@@ -819,16 +819,17 @@ impl<M: ConvexCellMarker + 'static> VoronoiIntegrator<M> {
     ///
     /// * `faces` - Mutable slice of vectors to store the faces of each cell (one vector per cell).
     pub fn build_voronoi_cells(&self, faces: &mut [Vec<VoronoiFace>]) -> Vec<VoronoiCell> {
-        let build = |(convex_cell, faces): (&Option<ConvexCell<_>>, _)| match convex_cell {
+        let build = |(idx, (convex_cell, faces)): (usize, (&Option<ConvexCell<_>>, _))| match convex_cell {
             Some(convex_cell) => {
                 VoronoiCell::from_convex_cell(convex_cell, faces, Some(&self.cell_is_active))
             }
-            None => VoronoiCell::default(),
+            None => VoronoiCell::unconstructed(idx),
         };
         #[cfg(feature = "rayon")]
-        let voronoi_cells = self.cells.par_iter().zip(faces.par_iter_mut()).map(build).collect();
+        let voronoi_cells =
+            self.cells.par_iter().zip(faces.par_iter_mut()).enumerate().map(build).collect();
         #[cfg(not(feature = "rayon"))]
-        let voronoi_cells = self.cells.iter().zip(faces.iter_mut()).map(build).collect();
+        let voronoi_cells = self.cells.iter().zip(faces.iter_mut()).enumerate().map(build).collect();
 
         voronoi_cells
     }
